@@ -564,6 +564,9 @@ class Topology:
         refine = numpy.asarray(refine)
         if refine.dtype != int:
             raise ValueError(f'expected an array of dtype int, got {refine.dtype}')
+        refine = numpy.where(refine < 0, refine + len(self), refine)
+        if refine.min() < 0 or refine.max() >= len(self):
+            raise IndexError('element index out of range')
         return self._refined_by(numpy.unique(refine))
 
     def _refined_by(self, refine: Iterable[int]) -> 'Topology':
